@@ -173,6 +173,29 @@ class MapMonitors:
         if C.maps is M.maps or len(C.maps) != n:
             v("C08", "mapping.copy_shares", dict(det, law="copy"))
             return False
+        # a copy is an independent value (rebasing-style use: a mapping is copied as a bookmark, then
+        # both sides keep growing): mirrored appends to the copy must not show up in the original,
+        # nor the other way round
+        if n >= 2:
+            h = n // 2
+            P = Mapping(list(maps))
+            RP = refmap.RMapping(list(rmaps))
+            for k in range(n - 1, h - 1, -1):
+                P.append_map(maps[k].invert(), k)
+                RP.append_map(rmaps[k].inverted(), k)
+            C2 = P.copy()
+            RC2 = RP.copy()
+            for k in range(h - 1, -1, -1):
+                C2.append_map(maps[k].invert(), k)
+                RC2.append_map(rmaps[k].inverted(), k)
+            for k in range(h - 1, -1, -1):
+                P.append_map(maps[k].invert())
+                RP.append_map(rmaps[k].inverted())
+            if not self.check_mapping(P, RP, size0, dict(det, law="copy-then-grow(original)")):
+                return False
+            if not self.check_mapping(C2, RC2, size0, dict(det, law="copy-then-grow(copy)")):
+                return False
+            self.probes["C08.copy_independence"] += 1
         # append_mapping
         X = Mapping()
         RX = refmap.RMapping()
